@@ -71,7 +71,7 @@ Proof. exact fragment_good_step. Qed.
    steps with at most len+1 tokens; nothing is assumed about parser, matcher or scan loop *)
 Theorem C06_group_grammar_tokenize_end_to_end_partial :
   forall xpath a fls input,
-    ok_a xpath a = true -> existsb (N.eqb 59) fls = false -> (N.of_nat (length input) < umax)%N ->
+    ok_a xpath a = true -> existsb (N.eqb 59) fls = false -> (N.of_nat (length input) < umax)%N -> valid_in input ->
     match spec_flags xpath fls with
     | Valid sf =>
         s_q sf = false -> s_x sf = false ->
